@@ -157,6 +157,13 @@ class Ref:
         except U.MissingKey as e:
             raise RefErr("KeyNotFoundError", e.key, e.candidates)
 
+    def _dc(self, s, o):
+        # members are evaluated in dir() order, i.e. sorted by name
+        vals = {}
+        for n, sp in sorted(s["members"], key=lambda m: m[0]):
+            vals[n] = realise(self.eval(sp, o))
+        return ("dc", tuple((n, vals[n]) for n in sorted(vals)))
+
     def _apply(self, s, o):
         x = self.eval(s["src"], o)
         fn = s["fn"]
@@ -451,6 +458,9 @@ class Ref:
         elif k == "dict":
             for _, v in spec["items"]:
                 sub(v)
+        elif k == "dc":
+            for _, m in spec["members"]:
+                sub(m)
         elif k == "map":
             for _, i in spec["iters"]:
                 sub(i)
@@ -596,6 +606,8 @@ def children(spec):
         return list(spec["items"])
     if k == "dict":
         return [v for _, v in spec["items"]]
+    if k == "dc":
+        return [m for _, m in spec["members"]]
     if k == "map":
         return [i for _, i in spec["iters"]] + [spec["body"]]
     if k in ("with", "cached"):
